@@ -41,7 +41,8 @@ static sexp sexp_twos_complement (sexp ctx, sexp x) {
   if (sexp_bignump(x) && sexp_bignum_sign(x) < 0) {
     sexp_gc_preserve1(ctx, res);
     res = sexp_copy_bignum(ctx, NULL, x, 0);
-    sexp_set_twos_complement(res);
+    if (!sexp_exceptionp(res))
+      sexp_set_twos_complement(res);
     sexp_gc_release1(ctx);
     return res;
   }
@@ -53,6 +54,10 @@ static sexp sexp_fixnum_to_twos_complement (sexp ctx, sexp x, int len) {
   sexp_gc_var1(res);
   sexp_gc_preserve1(ctx, res);
   res = sexp_make_bignum(ctx, len);
+  if (sexp_exceptionp(res)) {
+    sexp_gc_release1(ctx);
+    return res;
+  }
   if (sexp_unbox_fixnum(x) < 0)
     for (i = len-1; i > 0; i--)
       sexp_bignum_data(res)[i] = (sexp_uint_t)((sexp_sint_t)-1);
@@ -79,10 +84,12 @@ sexp sexp_bit_and (sexp ctx, sexp self, sexp_sint_t n, sexp x, sexp y) {
   } else if (sexp_bignump(x)) {
     sexp_gc_preserve3(ctx, res, x2, y2);
     x2 = sexp_twos_complement(ctx, x);
-    y2 = sexp_twos_complement(ctx, y);
+    y2 = sexp_exceptionp(x2) ? x2 : sexp_twos_complement(ctx, y);
     if (sexp_fixnump(y2) && sexp_unbox_fixnum(y2) < 0)
       y2 = sexp_fixnum_to_twos_complement(ctx, y2, sexp_bignum_length(x2));
-    if (sexp_fixnump(y2)) {
+    if (sexp_exceptionp(y2)) {
+      res = y2;                 /* out of memory */
+    } else if (sexp_fixnump(y2)) {
       res = sexp_make_fixnum(sexp_unbox_fixnum(y2) & sexp_bignum_data(x2)[0]);
     } else if (sexp_bignump(y2)) {
       lenx = sexp_bignum_length(x2);
@@ -92,6 +99,10 @@ sexp sexp_bit_and (sexp ctx, sexp self, sexp_sint_t n, sexp x, sexp y) {
         res = sexp_copy_bignum(ctx, NULL, x2, lenx+1);
       else
         res = sexp_copy_bignum(ctx, NULL, y2, leny+1);
+      if (sexp_exceptionp(res)) {
+        sexp_gc_release3(ctx);
+        return res;
+      }
       for (i=0, len=sexp_bignum_length(res); i<len; i++)
         sexp_bignum_data(res)[i]
           = (i<lenx ? sexp_bignum_data(x2)[i] : sexp_bignum_sign(x2) < 0 ? -1 : 0) &
@@ -134,21 +145,27 @@ sexp sexp_bit_ior (sexp ctx, sexp self, sexp_sint_t n, sexp x, sexp y) {
     sexp_gc_preserve2(ctx, res, tmp);
     if (sexp_fixnump(y) && sexp_unbox_fixnum(y) >= 0) {
       res = sexp_copy_bignum(ctx, NULL, x, 0);
-      if (sexp_bignum_sign(res) < 0)
-        sexp_set_twos_complement(res);
-      sexp_bignum_data(res)[0] |= (sexp_uint_t)sexp_unbox_fixnum(y);
-      if (sexp_bignum_sign(res) < 0)
-        sexp_set_twos_complement(res);
+      if (!sexp_exceptionp(res)) {
+        if (sexp_bignum_sign(res) < 0)
+          sexp_set_twos_complement(res);
+        sexp_bignum_data(res)[0] |= (sexp_uint_t)sexp_unbox_fixnum(y);
+        if (sexp_bignum_sign(res) < 0)
+          sexp_set_twos_complement(res);
+      }
     } else if (sexp_bignump(y) || sexp_fixnump(y)) {
       /* one extra word, so the top word of the result is pure sign extension */
       if (sexp_fixnump(y) || sexp_bignum_length(x) >= sexp_bignum_length(y)) {
         res = sexp_copy_bignum(ctx, NULL, x, sexp_bignum_length(x)+1);
-        len = sexp_bignum_length(res);
-        tmp = sexp_fixnump(y) ? sexp_fixnum_to_twos_complement(ctx, y, len) : sexp_twos_complement(ctx, y);
+        len = sexp_exceptionp(res) ? 0 : sexp_bignum_length(res);
+        tmp = sexp_exceptionp(res) ? res : sexp_fixnump(y) ? sexp_fixnum_to_twos_complement(ctx, y, len) : sexp_twos_complement(ctx, y);
       } else {
         res = sexp_copy_bignum(ctx, NULL, y, sexp_bignum_length(y)+1);
-        len = sexp_bignum_length(res);
-        tmp = sexp_twos_complement(ctx, x);
+        len = sexp_exceptionp(res) ? 0 : sexp_bignum_length(res);
+        tmp = sexp_exceptionp(res) ? res : sexp_twos_complement(ctx, x);
+      }
+      if (sexp_exceptionp(tmp)) {     /* out of memory */
+        sexp_gc_release2(ctx);
+        return tmp;
       }
       if (sexp_bignum_sign(res) < 0)
         sexp_set_twos_complement(res);
@@ -192,21 +209,27 @@ sexp sexp_bit_xor (sexp ctx, sexp self, sexp_sint_t n, sexp x, sexp y) {
     if (sexp_fixnump(y) && sexp_unbox_fixnum(y) >= 0) {
       /* one extra word: the low word may become zero */
       res = sexp_copy_bignum(ctx, NULL, x, sexp_bignum_length(x)+1);
-      if (sexp_bignum_sign(res) < 0)
-        sexp_set_twos_complement(res);
-      sexp_bignum_data(res)[0] ^= sexp_unbox_fixnum(y);
-      if (sexp_bignum_sign(res) < 0)
-        sexp_set_twos_complement(res);
+      if (!sexp_exceptionp(res)) {
+        if (sexp_bignum_sign(res) < 0)
+          sexp_set_twos_complement(res);
+        sexp_bignum_data(res)[0] ^= sexp_unbox_fixnum(y);
+        if (sexp_bignum_sign(res) < 0)
+          sexp_set_twos_complement(res);
+      }
     } else if (sexp_bignump(y) || sexp_fixnump(y)) {
       /* one extra word, so the top word of the result is pure sign extension */
       if (sexp_fixnump(y) || sexp_bignum_length(x) >= sexp_bignum_length(y)) {
         res = sexp_copy_bignum(ctx, NULL, x, sexp_bignum_length(x)+1);
-        len = sexp_bignum_length(res);
-        tmp = sexp_fixnump(y) ? sexp_fixnum_to_twos_complement(ctx, y, len) : sexp_twos_complement(ctx, y);
+        len = sexp_exceptionp(res) ? 0 : sexp_bignum_length(res);
+        tmp = sexp_exceptionp(res) ? res : sexp_fixnump(y) ? sexp_fixnum_to_twos_complement(ctx, y, len) : sexp_twos_complement(ctx, y);
       } else {
         res = sexp_copy_bignum(ctx, NULL, y, sexp_bignum_length(y)+1);
-        len = sexp_bignum_length(res);
-        tmp = sexp_twos_complement(ctx, x);
+        len = sexp_exceptionp(res) ? 0 : sexp_bignum_length(res);
+        tmp = sexp_exceptionp(res) ? res : sexp_twos_complement(ctx, x);
+      }
+      if (sexp_exceptionp(tmp)) {     /* out of memory */
+        sexp_gc_release2(ctx);
+        return tmp;
       }
       if (sexp_bignum_sign(res) < 0)
         sexp_set_twos_complement(res);
